@@ -90,3 +90,33 @@ fn k_na_text_2() {
     if b - a >= 1 { assert!(tb[0] == chars[a]); }
     if b - a >= 2 { assert!(tb[1] == chars[a + 1]); }
 }
+
+type NaBE<'a> = nom::error::Error<(&'a [u8], usize)>;
+
+/// C18 (bounded): the hand-written `nom_noalloc::many_m_n::<.., 4>(1, p)` meets the contract assumed for nom's
+/// `many_m_n(1, 4, p)` (the one validated by k_nom_many_1_4 on the std build): with a one-byte element parser on 0..=6 bytes it
+/// returns as many elements as are completely present, at most four, in order; fewer than one is an error
+#[kani::proof]
+#[kani::unwind(8)]
+fn k_na_many_1_4() {
+    let buf: [u8; 6] = kani::any();
+    let n: usize = kani::any();
+    kani::assume(n <= 6);
+    let r: nom::IResult<(&[u8], usize), crate::lib::std::vec::Vec<u8, 4>, NaBE> =
+        nom_noalloc::many_m_n::<_, _, _, _, 4>(1, nom::bits::complete::take::<_, u8, _, _>(8usize))((&buf[..n], 0));
+    if n == 0 {
+        assert!(r.is_err());
+    } else {
+        let ((rest, roff), v) = r.unwrap();
+        let k = if n >= 4 { 4 } else { n };
+        assert!(v.len() == k);
+        assert!(roff == 0 && rest.len() == n - k);
+        let mut i = 0;
+        while i < 4 {
+            if i < k {
+                assert!(v[i] == buf[i]);
+            }
+            i += 1;
+        }
+    }
+}
